@@ -3,7 +3,7 @@
 From Coq Require Import List Arith NArith Bool Lia.
 From NngV Require Import Gen.Consts Base.ListX Base.Bytes Codec.Staged Codec.WsFrameModel Codec.WsMsgModel
   Codec.ChunkedModel Codec.B64Model Codec.HttpLineModel Codec.CodecSpec
-  Codec.WsProofs Codec.ChunkedProofs Codec.HttpProofs Codec.B64Proofs.
+  Codec.HttpBufModel Codec.WsProofs Codec.ChunkedProofs Codec.HttpProofs Codec.HttpBufProofs Codec.B64Proofs.
 Import ListNotations.
 Local Open Scope N_scope.
 
@@ -87,6 +87,44 @@ Theorem http_any_split_same_events : forall keep strict isreq rest p st,
   http_feed_all keep strict isreq st (p :: rest) = http_feed keep strict isreq st (concat (p :: rest)).
 Proof. exact http_feed_all_concat. Qed.
 Print Assumptions http_any_split_same_events.
+
+(* The read buffer of the connection (http_rd_buf / http_rd_cb, flavors REQ and
+   RES): bufsz bytes, every physical read limited to the room left, complete
+   lines consumed, the incomplete line pulled up to the front, "too large"
+   only when that line then fills the whole buffer.  For a stream of ANY total
+   length in which no stretch of bufsz bytes is without a line feed (every line
+   fits), read in whatever pieces, the events and the connection state are
+   those of the unbounded parser on the whole stream: the buffer is
+   transparent, and so the outcome does not depend on the cuts. *)
+Theorem http_rdbuf_transparent : forall keep strict isreq bufsz pieces, (0 < bufsz)%nat ->
+  lines_fit bufsz (concat pieces) ->
+  let '(r, e1) := rd_feed_all true keep strict isreq bufsz rd_init pieces in
+  let '(u, e2) := http_feed keep strict isreq hfeed_init (concat pieces) in
+  e1 = e2 /\ rd_conn r = hf_conn u /\ rd_done r = hf_done u.
+Proof. exact rd_buffer_transparent. Qed.
+Print Assumptions http_rdbuf_transparent.
+
+Theorem http_rdbuf_segmentation_independent : forall keep strict isreq bufsz p1 p2, (0 < bufsz)%nat ->
+  concat p1 = concat p2 -> lines_fit bufsz (concat p1) ->
+  snd (rd_feed_all true keep strict isreq bufsz rd_init p1) = snd (rd_feed_all true keep strict isreq bufsz rd_init p2) /\
+  rd_conn (fst (rd_feed_all true keep strict isreq bufsz rd_init p1)) =
+  rd_conn (fst (rd_feed_all true keep strict isreq bufsz rd_init p2)).
+Proof. exact rd_segmentation_independent. Qed.
+Print Assumptions http_rdbuf_segmentation_independent.
+
+(* with the full-buffer test made BEFORE the pull-up ([pull_first] = false) a
+   53-byte request with lines of at most 16 bytes, buffer of 40 bytes, is
+   answered 431 when it arrives in one piece and 200 when cut at byte 30; the
+   code as it is (C16_RDBUF_PULLUP_FIRST = true) answers 200 both times *)
+Theorem http_rdbuf_test_before_pullup_refuted :
+  (let '(r, e) := rd_feed_all false true true true 40 rd_init [small_req] in get_status (rd_conn r) = 431) /\
+  (let '(r, e) := rd_feed_all false true true true 40 rd_init [firstn 30 small_req; skipn 30 small_req] in
+     get_status (rd_conn r) = 200) /\
+  (let '(r, e) := rd_feed_all true true true true 40 rd_init [small_req] in get_status (rd_conn r) = 200) /\
+  (let '(r, e) := rd_feed_all true true true true 40 rd_init [firstn 30 small_req; skipn 30 small_req] in
+     get_status (rd_conn r) = 200).
+Proof. exact test_before_pullup_depends_on_cuts. Qed.
+Print Assumptions http_rdbuf_test_before_pullup_refuted.
 
 (* the line scanner itself: a decision taken on a prefix is never revised *)
 Theorem http_line_scan_restartable : forall a b,
@@ -395,9 +433,9 @@ Print Assumptions codec_consts_match.
    the repairs be undone, the flag flips, the model follows, this theorem stops
    checking, and the probes of checks/c16.py report the defect with a replay. *)
 Theorem codec_current_source_repaired :
-  (C16_REQ_PARSE_KEEPS_ERR, C16_STATUS_STRICT, C16_DIALER_COPIES_RECVMAX, C16_DIALER_COPIES_FRAGSIZE) =
-  (true, true, true, true).
-Proof. reflexivity. Qed.
+  (C16_REQ_PARSE_KEEPS_ERR, C16_STATUS_STRICT, C16_DIALER_COPIES_RECVMAX, C16_DIALER_COPIES_FRAGSIZE,
+   C16_RDBUF_PULLUP_FIRST) = (true, true, true, true, true) /\ (0 < N.to_nat C16_HTTP_BUFSIZE)%nat.
+Proof. split; [reflexivity|]. apply Nat.ltb_lt. vm_compute. reflexivity. Qed.
 Print Assumptions codec_current_source_repaired.
 
 (* a client built from the current dialer code has no message limit and the ws_init fragment size *)
